@@ -1,5 +1,12 @@
 package main
 
+import (
+	"fmt"
+
+	vos "github.com/couchbase/nitro/zzverif/os"
+	"github.com/couchbase/nitro/zzverif/vrt"
+)
+
 func init() {
 	register(&propDef{ID: "C07",
 		Jobs: func(tier string) []Job {
@@ -9,6 +16,7 @@ func init() {
 				jobs = append(jobs, seqJobs("C07", tier, []seqCfg{{nCfg: nCfg{cmp: "default", writers: 2, mm: true, delta: delta}, policy: "drain", depth: 2, maxSnaps: 3, init: "abc", keys: []string{"a", "b", "c"},
 					check: c05Check("C07", []int{1, 2}, []int{1}, []int{1, 2})}})...)
 			}
+			jobs = append(jobs, restoreLeakJobs()...)
 			return append(jobs, c07ConcJobs(tier)...)
 		},
 		Rule:  "user-managed memory on the guard allocator (one page-aligned slot per block, never reused, freed pages inaccessible): every operation sequence up to the depth (alphabet of C02: rejected Puts, same-epoch and cross-epoch deletes, losing DeleteNode, snapshots closed in every order), workers drained or starved, ended by a final snapshot, closing every snapshot and Close(); the allocator live set must be empty, no block freed twice, no block freed that was never allocated; conc jobs: the C04 concurrent drivers run to Close(); non-trivial = distinct states / deviating schedules",
@@ -16,3 +24,53 @@ func init() {
 }
 
 func c07ConcJobs(tier string) []Job { return smrJobs("C07")(tier) }
+
+// restoreLeakJobs: a backup with delta interleaving during which an item already written to the data
+// file is deleted and collected (so it is also logged to the delta file and rejected as a duplicate on
+// restore), restored into a fresh instance with user-managed memory; both instances are closed.
+func restoreLeakJobs() []Job {
+	var jobs []Job
+	for _, dup := range []bool{true, false} {
+		for _, lc := range []int{1, 2} {
+			dup, lc := dup, lc
+			jobs = append(jobs, Job{Name: fmt.Sprintf("C07/restore-delta/dup=%v/loadconc%d", dup, lc), Run: func(jc *JobCtx) {
+				var outcome string
+				body := func() {
+					outcome = ""
+					c := cannedDB{name: "delta-mm", cfg: nCfg{cmp: "default", writers: 1, delta: true, mm: true}, ncpu: 2, items: []string{"a1", "b1", "c1", "d1"}, levels: []int{0, 1, 1, 0}, delta: true, dup: dup}
+					resetFS()
+					vrt.NoBranch(true)
+					e, err := buildBackup(&c, 1)
+					if err != nil {
+						outcome = "store-error"
+						return
+					}
+					r := loadBackup(c.cfg, e.ga, lc)
+					if r.err != nil {
+						vrt.Fail("backup", "LoadFromDisk failed: "+r.err.Error())
+					}
+					if fmt.Sprint(r.content) != fmt.Sprint(c.content) {
+						vrt.Fail("backup", fmt.Sprintf("restored %s instead of %s", showAll(r.content), showAll(c.content)))
+					}
+					r.snap.Close()
+					r.snap = nil
+					vrt.WaitIdle()
+					r.db.Close()
+					// close the original as well: nothing may stay allocated
+					s, _ := e.db.NewSnapshot()
+					s.Close()
+					vrt.WaitIdle()
+					e.closing = true
+					e.db.Close()
+					vos.FS = nil
+					if n, desc := e.ga.Live(); n != 0 {
+						vrt.Fail("leak", fmt.Sprintf("backup with delta interleaving (an item present in data and delta files: %v) restored into a fresh instance; after closing both instances %d blocks were never returned: %s", dup, n, desc))
+					}
+					outcome = "ok"
+				}
+				jc.Sched(SchedOpts{Model: vrt.CostDelay, Bound: 1, Outcome: func(r *vrt.Result) string { return outcome }}, body, nil)
+			}})
+		}
+	}
+	return jobs
+}
